@@ -89,7 +89,7 @@ theorem aliasPiece_text (c : Ctx) (q : Option Char) (a : Str) :
 
 theorem groupby_item (c : Ctx) (sel : List Term) (useAlias : Bool) (aq : Option Char) (t : Term) (ts : List Term) :
     renderGroupBy c sel useAlias aq (t :: ts) =
-      (if useAlias && aliasSelected sel t.alias? then [Piece.ident (orQ aq c.q) (t.alias?.getD [])] else render c t) ::
+      (if useAlias && aliasSelected sel t.alias? then [Piece.aliasRef (orQ aq c.q) (t.alias?.getD [])] else render c t) ::
         renderGroupBy c sel useAlias aq ts := renderGroupBy_eq_2 c sel useAlias aq
 
 /-- a reference is only ever written for an alias that some select term defines -/
